@@ -64,7 +64,7 @@ def flav(rng, leafs_have_nan=False, dom="float"):
     return {"dom": dom,
             "route": rng.choice(ROUTES_ANY if leafs_have_nan else ROUTES_DEF + ROUTES_ANY),
             "mat": rng.choice(MATS), "scalar": rng.choice(SCALARS),
-            "vec": rng.choice(["list", "ndarray", "series", "tuple"]),
+            "vec": rng.choice(["list", "ndarray", "series", "tuple", "coarse_index", "coarse_array"]),
             "lroute": rng.choice(["list", "frame", "series", "series_offset", "tuple", "ndarray", "short"]),
             # the closed side as an equal-but-distinct string object / operands that went through pickle; windows as tuple,
             # list, or one list object reused by every call; collection containers kept across aggregations
@@ -740,8 +740,19 @@ def gen_C12(rng, tier):
     for k in range(n):
         f, g = rng.choice(small), rng.choice(small)
         c = rng.choice(SIDES)
-        kind = rng.choice(["mul0", "zerodiv", "cdiv", "constmask", "cancel", "fromvals", "f-f", "scal_ident"])
+        kind = rng.choice(["mul0", "zerodiv", "cdiv", "constmask", "cancel", "fromvals", "f-f", "scal_ident", "dupvals"])
         prog = [leaf_stmt(0, f, c), leaf_stmt(1, g, c)]
+        if kind == "dupvals":       # from_values with a repeated or decreasing index label is refused (nothing is bound)
+            ks = sorted(rng.sample(range(0, 6), rng.randint(2, 4)))
+            m = rng.randrange(1, len(ks))
+            ks[m] = ks[m - 1] if rng.random() < 0.7 else ks[m - 1] - 1
+            rows = [(F(k_), rng.choice([F(1), F(2), F(3)])) for k_ in ks]
+            fl = flav(rng, False)
+            fl["route"] = "from_values"
+            prog = [C.from_values(0, F(0), rows, c), C.from_values(1, F(0), [(F(0), F(1)), (F(2), F(0))], c),
+                    C.query(1, "nsteps"), C.query(1, "points")]
+            cases.append(mk(f"C12/{kind}/{k}", prog, fl, tags=[kind, "nolift"]))
+            continue
         if kind == "mul0":
             prog.append(C.bin_(2, "mul", C.reg(0), C.cst(0)))
         elif kind == "zerodiv":
@@ -806,6 +817,36 @@ def gen_C12(rng, tier):
                   C.maskt(4, 5, hi, None) if hi is not None else C.un(4, "copy", 5), C.read(3, "frame")]
         P += [C.query(3, "identical", a=R(4)), C.query(4, "identical", a=R(3)), C.query(3, "nsteps"), C.query(4, "nsteps")]
         cases.append(mk(f"C12/{ident}/{k}", P, flav(rng, any(has_nan(x) for x in (f, g, h))), tags=[ident]))
+    # (d) integer step points beyond 2**53 (distinct labels that no float can tell apart): identical() tells neighbouring
+    # functions apart, leaves its operands usable, and the tables stay exact
+    for k in range(n // 6):
+        c = rng.choice(SIDES)
+        pts = sorted(rng.sample(range(0, 7), rng.randint(2, 4)))
+        vs = [rng.choice([F(1), F(2), F(3)]) for _ in pts]
+        rows = [(F(p), v) for p, v in zip(pts, vs)]
+        rows = [r for i_, r in enumerate(rows) if i_ == 0 or r[1] != rows[i_ - 1][1]] + []
+        rows2 = list(rows)
+        m = rng.randrange(len(rows2))
+        how = rng.choice(["same", "shift1", "shift1", "value"])
+        if how == "shift1":
+            p2 = rows2[m][0] + rng.choice([1, -1])
+            if all(p2 != q_ for q_, _ in rows2) and (m == 0 or rows2[m - 1][0] < p2) and (m == len(rows2) - 1 or p2 < rows2[m + 1][0]):
+                rows2[m] = (p2, rows2[m][1])
+        elif how == "value":
+            rows2[m] = (rows2[m][0], rows2[m][1] + 4)
+        prog = [C.from_values(0, F(0), rows, c), C.from_values(1, F(0), rows2, c)]
+        if rng.random() < 0.5:
+            prog.append(C.read(rng.choice([0, 1]), rng.choice(["values", "deltas", "frame"])))
+        prog += [C.query(0, "identical", a=C.reg(1)), C.query(1, "identical", a=C.reg(0)), C.bin_(2, "eq", C.reg(0), C.reg(1)),
+                 C.query(2, "bool"), C.bin_(3, "sub", C.reg(0), C.reg(1)), C.query(3, "nsteps"), C.query(3, "points")]
+        # the operands are still what they were, and can be layered onto
+        a = F(rng.choice(range(0, 7))) + F(1, 2)
+        prog += [C.layer_s(1, a, None, F(5)), C.read(1, "frame"), C.read(0, "frame"), C.query(1, "nsteps"),
+                 C.query(1, "sample", xs=[F(x_) for x_ in range(-1, 8)])]
+        fl = flav(rng, False)
+        fl["dom"] = "bigint"
+        fl["route"] = "from_values"
+        cases.append(mk(f"C12/bigint/{k}", prog, fl, tags=["bigint", "nolift"]))
     return cases
 
 
@@ -825,13 +866,15 @@ def gen_C13_directed(rng, k):
     d = F(0)
     kind = rng.choice(["shift", "shift", "copy", "neg", "addc", "mulc", "rmulc", "clipnone", "wherenone", "fills", "mask1", "sub0",
                        "diff", "addself", "agg", "agg", "agg1", "cliphi_at", "cliphi_at", "wherehi_at", "aggwin_at",
-                       "rdivc", "rdivc", "rdivs", "divc", "rsubc", "relc"])
+                       "rdivc", "rdivc", "rdivs", "divc", "rsubc", "relc", "identq", "identq"])
     if kind in ("agg", "agg1"):       # collection aggregates (their initial value comes out of a numpy reduction)
         g2 = rand_leaf(rng, maxn=3, nan=0.0, grid=1, span=6, vals=[F(j) for j in range(-1, 3)])
         P.append(leaf_stmt(2, g2, c))
         P.append(C.agg(1, rng.choice(["sum", "mean", "median", "min", "max", "logical_or", "logical_and"]), [0, 2] if kind == "agg" else [0]))
     elif kind == "rmulc":
         P.append(C.bin_(1, "mul", C.cst(1), C.reg(0)))
+    elif kind == "identq":        # identical() is an operation too: both operands are what they were, and usable, afterwards
+        P += [leaf_stmt(2, f, c), C.query(0, "identical", a=C.reg(2)), C.un(1, "copy", 0)]
     elif kind == "rdivc":         # scalar / f where f takes the value zero (6 and 12 divide exactly by every value of f)
         P.append(C.bin_(1, "div", C.cst(rng.choice([F(6), F(12), F(-6)])), C.reg(0)))
     elif kind == "rdivs":         # the same with a step-free Stairs on the left
@@ -878,7 +921,7 @@ def gen_C13_directed(rng, k):
         P.append(C.bin_(1, "add", C.reg(0), C.reg(0)))
     pts0 = f[0]
     pts1 = [p + d for p in pts0]
-    regs = [0, 1]
+    regs = [0, 1] + ([2] if kind == "identq" else [])
     if rng.random() < 0.4:        # a function derived from the result: siblings and grand-children share nothing either
         k2 = rng.choice(["copy", "copy", "clipnone", "shift0", "fills", "neg"])
         P.append({"copy": C.un(3, "copy", 1), "clipnone": C.clip(3, 1, None, None), "shift0": C.shift(3, 1, F(0)),
@@ -896,6 +939,11 @@ def gen_C13_directed(rng, k):
             for r_ in regs:
                 P += [C.query(r_, q) for q in rng.sample(["var", "mean", "integral", "value_sums", "max"], 2)]
     fl = flav(rng, has_nan(f))
+    if kind == "identq" and rng.random() < 0.6:
+        fl["dom"] = "bigint"        # integer labels beyond 2**53
+        if fl.get("route") not in ("from_values", "layer", "maskroute"):
+            # (a start / end VECTOR with a missing entry is a float array in numpy / pandas: it cannot carry such labels)
+            fl["route"] = rng.choice(["from_values", "layer"])
     return mk(f"C13/directed/{kind}/{k}", P, fl, mode="tol" if distq else "exact", tags=["directed-" + kind])
 
 
@@ -1058,6 +1106,21 @@ def gen_C14(rng, tier):
                 prog.append(stat_query(rng, 0, rng.choice(STAT_Q)))
         prog += [stat_query(rng, 0, q) for q in rng.sample(STAT_Q, 4)] + [C.read(0, "frame")]
         cases.append(mk(f"C14/{k}", prog, flav(rng, has_nan(base)), mode="tol", tags=["history"]))
+    # integrals beyond the range of a Timedelta (datetime domain, huge values): integral() refuses every time it is asked -
+    # not only the first -, and mean() is unaffected, before and after a layer call
+    for k in range(n // 40):
+        c = rng.choice(SIDES)
+        big = F(2) ** rng.choice([40, 44, 50])
+        pts = sorted(rng.sample(range(0, 8), 3))
+        prog = [C.from_values(0, F(0), [(F(pts[0]), big), (F(pts[1]), big * rng.choice([2, 3])), (F(pts[2]), F(0))], c)]
+        qs = [C.query(0, "integral"), C.query(0, "mean"), C.query(0, "integral"), C.query(0, "max")]
+        rng.shuffle(qs)
+        prog += qs + [C.query(0, "integral")]
+        prog += [C.layer_s(0, F(pts[0]), F(pts[2]) + 1, big), C.query(0, "mean"), C.query(0, "integral"), C.query(0, "integral")]
+        fl = flav(rng, False)
+        fl["dom"] = rng.choice(["dt", "tz", "td"])
+        fl["valdtype"] = "float"
+        cases.append(mk(f"C14/overflow/{k}", prog, fl, mode="tol", tags=["overflow", "nolift"]))
     return cases
 
 
@@ -1217,7 +1280,7 @@ def gen_C11(rng, tier):
             tag = "resample"
         fl = flav(rng, has_nan(f))
         fl["cuts"] = rng.choice(["index", "breaks"])
-        fl["slicecall"] = rng.choice(["direct", "agg", "apply"])
+        fl["slicecall"] = rng.choice(["direct", "agg", "apply", "applyargs"])
         cases.append(mk(f"C11/{tag}/{k}", prog, fl, mode="tol", tags=[tag]))
     # PeriodIndex slicing on a naive datetime domain: hourly periods (unit intervals at integer points), consecutive or with
     # gaps, in any order
@@ -1234,7 +1297,7 @@ def gen_C11(rng, tier):
         fl = flav(rng, has_nan(f))
         fl["dom"] = "dt"
         fl["cuts"] = "period"
-        fl["slicecall"] = rng.choice(["direct", "agg", "apply"])
+        fl["slicecall"] = rng.choice(["direct", "agg", "apply", "applyargs"])
         cases.append(mk(f"C11/period/{k}", prog, fl, mode="tol", tags=["period", "dt"]))
     return cases
 
@@ -1307,12 +1370,18 @@ def gen_C19(rng, tier):
     n = 1500 if tier == "quick" else 12000
     cases = []
     for k in range(2 * n):
-        f, g = rand_leaf(rng, maxn=4, vals=[F(j, 2) for j in range(-4, 5)]), rand_leaf(rng, maxn=4, vals=[F(j, 2) for j in range(-4, 5)])
+        # values of order one; or (k % 10 == 3) a large offset with unit spread - mean(f*g) - mean(f)*mean(g) would cancel
+        # catastrophically there -; or (k % 10 == 7) tiny values, where cov and the variances are far below any absolute epsilon
+        off, scale = (F(2) ** 27, F(1)) if k % 10 == 3 else ((F(0), F(1, 2 ** 20)) if k % 10 == 7 else (F(0), F(1)))
+        vals_ = [off + scale * F(j, 2) for j in range(-4, 5)]
+        f, g = rand_leaf(rng, maxn=4, vals=vals_), rand_leaf(rng, maxn=4, vals=vals_)
         c = rng.choice(SIDES)
         pts = leaf_points(f, g[0])
         lo = rng.choice(pts)
         hi = rng.choice([p for p in pts if p > lo] + [pts[-1] + 2])
-        if rng.random() < 0.1:
+        if rng.random() < 0.1 and not off:
+            # (unbounded window: outside the property's quantifier; the three means are then taken over different ranges - the
+            # finite pieces of each function -, so with a large offset the rounding of one mean no longer cancels)
             lo, hi = None, None
         prog = [leaf_stmt(0, f, c), leaf_stmt(1, g, c if rng.random() < 0.92 else rng.choice(SIDES))]
         lag = rng.choice([F(0), F(0), F(1), F(-1), F(1, 2)])
@@ -1328,7 +1397,8 @@ def gen_C19(rng, tier):
             hi2 = hi - lag if (clip == "pre" and hi is not None) else hi
             if lo is None or hi2 is None or lo < hi2:
                 prog.append(C.query(0, kind, b=2, lo=lo, hi=hi2))
-        cases.append(mk(f"C19/{kind}/{k}", prog, flav(rng, has_nan(f) or has_nan(g)), mode="tol", tags=[kind]))
+        cases.append(mk(f"C19/{kind}/{k}", prog, flav(rng, has_nan(f) or has_nan(g)), mode="tol",
+                        tags=[kind] + (["big-offset", "nolift"] if off else []) + (["tiny", "nolift"] if scale != 1 else [])))      # (on datetime domains value x length is a Timedelta: whole nanoseconds)
     return cases
 
 
@@ -1370,6 +1440,25 @@ def gen_C20(rng, tier):
             tag = "rolling"
         tol = tag == "rolling" or any(st.get("q") == "rolling" for st in prog)
         cases.append(mk(f"C20/{tag}/{k}", prog, flav(rng, has_nan(f)), mode="tol" if tol else "exact", tags=[tag]))
+    # window offsets that are not binary fractions (0.1, 0.3, 0.7): the sample points x - l, x - r and the trimming bounds
+    # lower - l, upper - r are then rounded numbers. Integer step points and bounds, and r - l not an integer, so that two
+    # sample points never coincide except as the same expression (no row can appear or vanish through rounding alone).
+    decs = [F(-7, 10), F(-3, 10), F(-1, 10), F(0), F(1, 10), F(3, 10), F(7, 10), F(6, 5)]
+    # The functions are defined everywhere: where the defined part of a window vanishes the window mean is not continuous
+    # in the window's edges, and a rounded edge may legitimately see a sliver of the neighbouring piece.
+    for k in range(n // 3):
+        f = rand_leaf(rng, maxn=4, nan=0, grid=1, span=7, vals=[F(j, 2) for j in range(-2, 5)])
+        while not f[0]:
+            f = rand_leaf(rng, maxn=4, nan=0, grid=1, span=7, vals=[F(j, 2) for j in range(-2, 5)])
+        c = rng.choice(SIDES)
+        l, r = sorted(rng.sample(decs, 2))
+        while (r - l).denominator == 1:
+            l, r = sorted(rng.sample(decs, 2))
+        pts = sorted(set(f[0]) | {f[0][0] - 1, f[0][-1] + 1})
+        lo = rng.choice([None] + pts)
+        hi = rng.choice([None] + [p for p in pts if lo is None or p > lo])
+        prog = [leaf_stmt(0, f, c), C.query(0, "rolling", l=l, rr=r, lo=lo, hi=hi)]
+        cases.append(mk(f"C20/rolling-dec/{k}", prog, flav(rng, has_nan(f)), mode="tol", tags=["rolling-dec", "nolift"]))
     return cases
 
 
